@@ -303,7 +303,7 @@ func (i *interpreter) idx64(s sym) *smt.Term {
 
 func isScalar(v value) bool {
 	switch v.(type) {
-	case sym, bool, int, int8, int16, int32, int64, uint, uint8, uint16, uint32, uint64, uintptr, float32, float64:
+	case sym, ftab, fmono, bool, int, int8, int16, int32, int64, uint, uint8, uint16, uint32, uint64, uintptr, float32, float64:
 		return true
 	}
 	return false
@@ -619,6 +619,22 @@ func (i *interpreter) canon(v value, model map[string]uint64) string {
 			return fmt.Sprint(bitsv != 0)
 		}
 		return i.canon(fromBits(v.k, uint64(signExtendKind(v.k, bitsv))), model)
+	case fmono:
+		n := i.tb.Eval(v.x, model)
+		w := uint(kindWidth(v.xk))
+		idx := n
+		if kindSigned(v.xk) {
+			idx = n ^ (uint64(1) << (w - 1))
+		}
+		return fmt.Sprint(v.eval(idx))
+	case ftab:
+		kv := i.tb.Eval(v.key, model)
+		for j, kk := range v.keys {
+			if kk == kv {
+				return fmt.Sprint(v.vals[j])
+			}
+		}
+		return "<ftab?>"
 	case symstr:
 		b := make([]byte, len(v))
 		for k, e := range v {
@@ -669,6 +685,7 @@ func isBasicType(t types.Type) bool {
 func (i *interpreter) RunPath(fn *ssa.Function, prefix []int64, wantWitness bool) (res *PathResult) {
 	if i.tb.Size() > 400000 {
 		i.tb = smt.NewTable()
+		i.tabCache = map[string][]uint64{}
 		i.sess.Close()
 		sess, err := smt.NewSession(i.tb, i.cfg.SolverArgv, i.cfg.QueryTimeoutMs)
 		if err != nil {
